@@ -70,7 +70,7 @@ pub open spec fn swfe_post(w: Whirlpool, mint_a: crate::token_v2::Mint, mint_b: 
 // ------------------------------------------------------------------ handlers (Anchor): shims for the account wrappers
 //@ tags C03 C17 C06
 //@ assume anchor account wrappers are shims: Context (accounts behind &mut), Account<'info, T> (data + key, Deref/DerefMut), Program, Signer, UncheckedAccount, AccountInfo; the #[account(..)] attributes of the #[derive(Accounts)] structs become the generated precondition constraints_<Struct> (K-rules, see the per-struct assumption entries); Clock::get is a stub; the tick-sequence builder and the oracle accessor are stubs whose results are uninterpreted functions of their inputs; token CPIs are stubs that record a fact moved(from, to, amount)
-pub struct BumpsShim { pub position: u8 }
+pub struct BumpsShim { pub position: u8, pub position_bundle: u8 }
 pub struct Context<'a, 'b, 'c, 'info, T> { pub accounts: &'b mut T, pub remaining_accounts: &'c [AccountInfo<'info>], pub bumps: BumpsShim, pub p: core::marker::PhantomData<&'a ()> }
 pub use crate::authority::{AccountInfo, Signer, TokenAccount};
 pub use crate::anchor_shim::Account;
